@@ -5,7 +5,7 @@ patch="$1"; shift
 tmp=$(mktemp -d /tmp/wt/scratch.XXXXXX)
 trap 'rm -rf "$tmp"' EXIT
 cp -r /repo/include /repo/src /repo/CMakeLists.txt "$tmp"/ 2>/dev/null
-[ -d /repo/test ] && ln -s /repo/test "$tmp/test"
+[ -d /repo/test ] && cp -r /repo/test "$tmp/test"
 if ! patch -p1 -s -d "$tmp" -i "$patch" > "$tmp/apply.err" 2>&1; then echo "patch does not apply: $(cat $tmp/apply.err)"; exit 3; fi
 for p in "$@"; do
   (cd /verif && timeout 600 python3-vt bin/check.py "$p" --root "$tmp" --no-evidence > "$tmp/out" 2>&1; echo "[$p exit=$?]" >> "$tmp/out")
